@@ -38,7 +38,8 @@ def skeletons(n):
     out = []
     for ops in itertools.product(BIN, repeat=n):
         opnds = SLOTS[:n + 1]
-        base = dict(ops=list(ops), classes=''.join(CLS[o] for o in ops), n=n)
+        cl = ''.join(CLS[o] for o in ops)
+        base = dict(ops=list(ops), classes=cl, n=n, right_cs=any(c in 'cs' for c in cl[1:]))
 
         def join(parts):
             s = parts[0]
@@ -82,96 +83,63 @@ def translate_one(formula):
 CELLNAME = {f'_0_{i}_0': s for i, s in enumerate(SLOTS)}
 
 
-def value_tier(ref_tree, emitted_node):
-    """z3 over reals: operand values that make the two trees differ (text concatenation uninterpreted).  -> dict slot->int or None"""
+def value_tier(rt, et):
+    """z3 over reals on the two normalised trees (text concatenation uninterpreted): ('sat', operands) | ('unsat', None) | ('unknown', None)"""
     R = z3.RealSort()
-    cat = z3.Function('cat', R, R, R)
+    cat2 = z3.Function('cat2', R, R, R)
+    nil = z3.Real('nil')
     vars_ = {s: z3.Int('v_' + s) for s in SLOTS}
     side = []
 
     def b2r(b):
         return z3.If(b, z3.RealVal(1), z3.RealVal(0))
 
-    def num(x):
-        return z3.ToReal(x) if z3.is_int(x) else x
-
-    def ref(t):
+    def enc(t):
         k = t[0]
-        if k == 'par':
-            return ref(t[1])
+        if k == 'cell':
+            return z3.ToReal(vars_[t[1]])
         if k == 'num':
-            return z3.RealVal(t[1])
-        if k == 'ref':
-            return num(vars_[t[1]])
-        if k == 'neg':
-            return -ref(t[1])
-        if k == 'pos':
-            return ref(t[1])
-        if k == 'pct':
-            return ref(t[1]) / 100
-        if k in ('str', 'bool'):
-            raise e3.EmitError('non-numeric literal in value tier')
-        op, l, r = t[1], ref(t[2]), ref(t[3])
-        if op == '&':
-            return cat(l, r)
-        if op == '/':
+            return z3.RealVal(repr(t[1]))
+        if k == 'bool':
+            return z3.RealVal(1 if t[1] else 0)
+        if k == 'str':
+            raise e3.EmitError('text literal in value tier')
+        if k == 'cat':
+            acc = nil
+            for x in reversed(t[1]):
+                acc = cat2(enc(x), acc)
+            return acc
+        name, args = t[1], [enc(x) for x in t[2:]]
+        if name == 'neg':
+            return -args[0]
+        if name in ('pos', 'tostr'):
+            return args[0]
+        l, r = args
+        if name == 'div':
             side.append(r != 0)
             return l / r
-        if op in '+-*':
-            return {'+': l + r, '-': l - r, '*': l * r}[op]
-        return b2r({'=': l == r, '<>': l != r, '<': l < r, '<=': l <= r, '>': l > r, '>=': l >= r}[op])
-
-    import ast
-
-    def emi(n):
-        if isinstance(n, ast.Constant) and isinstance(n.value, (int, float)) and not isinstance(n.value, bool):
-            return z3.RealVal(repr(n.value))
-        if isinstance(n, ast.BinOp):
-            l, r = emi(n.left), emi(n.right)
-            if isinstance(n.op, ast.Add):
-                # str(x)+str(y) is concatenation
-                if all(isinstance(x, ast.Call) and isinstance(x.func, ast.Name) and x.func.id == 'str' for x in (n.left, n.right)):
-                    return cat(emi(n.left.args[0]), emi(n.right.args[0]))
-                return l + r
-            if isinstance(n.op, ast.Sub):
-                return l - r
-            if isinstance(n.op, ast.Mult):
-                return l * r
-            if isinstance(n.op, ast.Div):
-                side.append(r != 0)
-                return l / r
-        if isinstance(n, ast.UnaryOp):
-            return -emi(n.operand) if isinstance(n.op, ast.USub) else emi(n.operand)
-        if isinstance(n, ast.Call):
-            f = n.func
-            if isinstance(f, ast.Name) and f.id == 'str':
-                return emi(n.args[0])
-            if isinstance(f, ast.Attribute):
-                if f.attr == '_cell_preprocessor':
-                    return num(vars_[CELLNAME[n.args[0].value]])
-                if f.attr == '_normalize_float_number':
-                    return emi(n.args[0])
-                if f.attr == '_compare':
-                    l, r = emi(n.args[1]), emi(n.args[2])
-                    o = n.args[0].value
-                    return b2r({'==': l == r, '!=': l != r, '<': l < r, '<=': l <= r, '>': l > r, '>=': l >= r}[o])
-        raise e3.EmitError('value tier cannot encode ' + ast.unparse(n)[:60])
+        if name in ('add', 'sub', 'mul'):
+            return {'add': l + r, 'sub': l - r, 'mul': l * r}[name]
+        return b2r({'cmp_eq': l == r, 'cmp_ne': l != r, 'cmp_lt': l < r, 'cmp_le': l <= r, 'cmp_gt': l > r, 'cmp_ge': l >= r}[name])
 
     s = z3.Solver()
     s.set('timeout', 5000)
     try:
-        a, b = ref(ref_tree), emi(emitted_node)
+        a, b = enc(rt), enc(et)
     except e3.EmitError:
-        return None
+        return 'unknown', None
     for c in side:
         s.add(c)
     for v in vars_.values():
         s.add(v >= -9, v <= 9)
     s.add(a != b)
-    if s.check() != z3.sat:
-        return None
+    r = s.check()
+    if r == z3.unsat:
+        return 'unsat', None
+    if r != z3.sat:
+        return 'unknown', None
     m = s.model()
-    return {k: m.eval(v, model_completion=True).as_long() for k, v in vars_.items()}
+    return 'sat', {k: m.eval(v, model_completion=True).as_long() for k, v in vars_.items()}
 
 
 def native_eval(code, env):
@@ -197,6 +165,65 @@ def region_of(attrs, kfs):
     return None
 
 
+def _group1_chunk(fam, kfs):
+    import ast as _ast
+    cnt = dict(euf_identical=0, value_equal=0, known=0, violated=0, inconclusive=0)
+    hits, conds, queries = {}, [], 0
+    for formula, attrs in fam:
+        attrs = dict(attrs, formula=formula)
+        name = 'grouping:' + formula
+        try:
+            ref = e3.ref_parse(formula)
+            rt = e3.ref_tree(ref)
+        except e3.RefError as e:
+            conds.append((name, 'inconclusive', f'reference parser: {e}'))
+            cnt['inconclusive'] += 1
+            continue
+        bad = detail = None
+        code = None
+        try:
+            ctx = translate_one(formula)
+            code = ctx._cell_translations['_0_5_0']
+            et = e3.emitted_tree(_ast.parse(code, mode='eval').body, CELLNAME)
+        except Exception as e:      # translator refuses / crashes / emits something outside the operator algebra: a counterexample by itself
+            bad, detail = True, f'{formula}: {type(e).__name__}: {e}'
+        queries += 1
+        if bad is None:
+            if e3.euf_equal(e3.to_z3(rt), e3.to_z3(et)):
+                cnt['euf_identical'] += 1
+                continue
+            verdict, env = value_tier(rt, et)
+            queries += 1
+            if verdict == 'unsat':
+                cnt['value_equal'] += 1          # different trees, equal values for all reals (e.g. a%+(b+c))
+                continue
+            if verdict == 'unknown':
+                conds.append((name, 'inconclusive', f'trees differ (emitted: {code}); value tier undecided'))
+                cnt['inconclusive'] += 1
+                continue
+            try:
+                got = native_eval(code, env)
+                exp = e3.ref_eval(ref, env)
+                bad = not close(got, exp)
+                detail = f'{formula}: emitted `{code}` gives {got!r}, Excel grouping gives {exp!r} for {env}'
+            except ZeroDivisionError:
+                bad, detail = False, 'division by zero in replay'
+            except Exception as ex:
+                bad, detail = True, f'{formula}: emitted `{code}` raises {type(ex).__name__}: {ex} for {env}'
+            if not bad:
+                conds.append((name, 'spurious', 'value-tier model not reproduced natively: ' + str(detail)))
+                cnt['inconclusive'] += 1
+                continue
+        ki = region_of(attrs, kfs)
+        if ki is not None:
+            cnt['known'] += 1
+            hits.setdefault(ki, []).append(formula)
+            continue
+        cnt['violated'] += 1
+        conds.append((name, 'violated', detail))
+    return dict(cnt=cnt, hits=hits, conds=conds, queries=queries)
+
+
 def group1(report, tier, seed):
     t0 = time.time()
     rnd = random.Random(seed)
@@ -204,42 +231,35 @@ def group1(report, tier, seed):
     if tier == 'quick':
         s3 = skeletons(3)
         rnd.shuffle(s3)
-        fam += s3[:1500]
+        fam += s3[:8000]
     else:
         fam += skeletons(3)
     kfs = findings.for_harness('C01', 'grouping')
-    same = diff_known = 0
+    chunks = [fam[i::NCPU * 2] for i in range(NCPU * 2)]
+    res = e2.run_jobs([(f'chunk{i}', _group1_chunk, (ch, kfs)) for i, ch in enumerate(chunks) if ch], NCPU, deadline=3000)
+    cnt = dict(euf_identical=0, value_equal=0, known=0, violated=0, inconclusive=0)
     hits = {}
-    unknown = []
-    for formula, attrs in fam:
-        attrs = dict(attrs, formula=formula)
-        try:
-            ref = e3.ref_parse(formula)
-        except e3.RefError as e:
-            report.condition('grouping:' + formula, 'E3', 'inconclusive', detail=f'reference parser: {e}')
+    nviol = 0
+    for name_, r in res.items():
+        if 'error' in r:
+            report.condition('grouping.' + name_, 'E3', 'inconclusive', detail=r['error'])
             continue
-        try:
-            ctx = translate_one(formula)
-            code = ctx._cell_translations['_0_5_0']
-            node = __import__('ast').parse(code, mode='eval').body
-            et = e3.emitted_term(node, CELLNAME)
-            identical = e3.euf_equal(e3.ref_term(ref), et)
-            problem = None
-        except Exception as e:      # translator refuses / crashes / emits something outside the operator algebra
-            identical, problem, code, node = False, f'{type(e).__name__}: {e}', None, None
-        report.queries += 1
-        if identical:
-            same += 1
-            continue
-        ki = region_of(attrs, kfs)
-        if ki is not None:
-            diff_known += 1
-            hits.setdefault(ki, []).append(formula)
-            continue
-        unknown.append((formula, attrs, ref, code, node, problem))
-    report.extra.update(programs=len(fam), euf_identical=same, euf_different_in_known_regions=diff_known, euf_different_unknown=len(unknown))
-    report.sample(dict(family=len(fam), identical=same, known_region=diff_known, unknown=len(unknown), secs=round(time.time() - t0, 1)))
-    report.condition('grouping.euf_identical_shapes', 'E3', 'holds', time.time() - t0, same, f'{same} skeletons: emitted term == reference term (EUF unsat)')
+        report.queries += r['queries']
+        for k, v in r['cnt'].items():
+            cnt[k] += v
+        for ki, fs in r['hits'].items():
+            hits.setdefault(ki, []).extend(fs)
+        for (cname, verdict, detail) in r['conds']:
+            report.condition(cname, 'E3+values', verdict, detail=detail)
+            if verdict == 'violated':
+                if nviol < 8:
+                    report.violation('grouping_' + ''.join(ch if ch.isalnum() else '_' for ch in cname[9:])[:50], cname[9:], detail)
+                nviol += 1
+    report.extra.update(programs=len(fam), **{'grouping_' + k: v for k, v in cnt.items()})
+    report.extra['disagreements_checked'] = cnt['value_equal'] + cnt['known'] + cnt['violated']
+    report.sample(dict(family=len(fam), **cnt, secs=round(time.time() - t0, 1)))
+    report.condition('grouping.identical_or_value_equal', 'E3', 'holds', time.time() - t0, cnt['euf_identical'] + cnt['value_equal'],
+                     f'{cnt["euf_identical"]} skeletons: emitted term == reference term (EUF unsat); {cnt["value_equal"]}: different trees, value tier unsat over reals')
     # known findings: replay the stored witness natively, report once per finding
     for ki, e in enumerate(kfs):
         w = e.get('witness')
@@ -255,54 +275,209 @@ def group1(report, tier, seed):
             bad, detail = True, f'{w["formula"]}: {type(ex).__name__}: {ex}'
         if bad:
             report.condition(f'grouping#kf{ki}', 'replay', 'known', 0, len(hits.get(ki, [])), e.get('what', ''))
-            report.known_finding(f'grouping: {detail}; {len(hits.get(ki, []))} skeletons of the family in this region :: {e.get("what", "")}', key=e.get('what'))
+            report.known_finding(f'grouping: {detail}; {len(hits.get(ki, []))} skeletons of the family fail inside this region :: {e.get("what", "")}', key=e.get('what'))
         else:
             report.note(f'known finding no longer reproduces: {w}')
-    # unknown differences: value tier
-    nviol = 0
-    for formula, attrs, ref, code, node, problem in unknown[:400]:
-        name = 'grouping:' + formula
-        if problem is not None:
-            # rejected or crashed on a formula of the operator grammar: a counterexample by itself (the statement covers every such formula)
-            report.condition(name, 'E3', 'violated', detail=problem)
-            if nviol < 8:
-                report.violation('grouping_' + ''.join(ch if ch.isalnum() else '_' for ch in formula)[:50], formula, problem)
-            nviol += 1
-            continue
-        env = value_tier(ref, node)
-        if env is None:
-            report.condition(name, 'E3+values', 'inconclusive', detail=f'trees differ (emitted: {code}) but the value tier found no distinguishing operands')
-            continue
-        try:
-            got = native_eval(code, env)
-            exp = e3.ref_eval(ref, env)
-            bad = not close(got, exp)
-            detail = f'emitted `{code}` gives {got!r}, Excel grouping gives {exp!r} for {env}'
-        except ZeroDivisionError:
-            bad, detail = False, 'division by zero in replay'
-        except Exception as ex:
-            bad, detail = True, f'emitted `{code}` raises {type(ex).__name__}: {ex} for {env}'
-        if bad:
-            report.condition(name, 'E3+values', 'violated', detail=detail)
-            if nviol < 8:
-                report.violation('grouping_' + ''.join(ch if ch.isalnum() else '_' for ch in formula)[:50], f'{formula} {env}', detail)
-            nviol += 1
-        else:
-            report.condition(name, 'E3+values', 'spurious', detail='value-tier model not reproduced natively: ' + detail)
-    if len(unknown) > 400:
-        report.note(f'{len(unknown) - 400} further EUF-different skeletons not sent to the value tier (cap)')
     return fam
 
 
+# ---- group 2: blank counts as 0 in arithmetic; an override is the same as the workbook value (E1) ---------------------------------------
+PRE2 = r"""
+from typing import List, Tuple, Optional, Union
+from vlib import build
+OPS = ['+', '-', '*']
+FORMS = {'G1': '=A1+B1', 'G2': '=A1-B1', 'G3': '=A1*B1', 'G4': '=B1-A1', 'G5': '=B1+A1%', 'G6': '=B1*-A1', 'G7': '=A1+B1*C1', 'G8': '=(A1+B1)*C1', 'G9': '=B1/C1'}
+TRANSLATE_ERRORS = []
+try:
+    KB = build.load_class(build.translate_formulas(FORMS, {'B1': 5, 'C1': 2}), '_kblank')          # A1 is blank in the workbook
+except Exception as _e:
+    KB = None
+    TRANSLATE_ERRORS.append(('blank-operand family', f'{type(_e).__name__}: {_e}'))
+CONSTS = [0, 1, -3, 7, 4, True]
+KC = {}
+for _i, _c in enumerate(CONSTS):
+    try:
+        KC[_i] = build.load_class(build.translate_formulas(FORMS, {'A1': _c, 'B1': 5, 'C1': 2}), f'_kconst{_i}')
+    except Exception as _e:
+        TRANSLATE_ERRORS.append((f'constant {_c!r} family', f'{type(_e).__name__}: {_e}'))
+
+def ev(k, cell, **ov):
+    args = [{'uid': build.uid(0, a), 'value': v} for a, v in ov.items()]
+    return k(args).exec_function_in(build.uid(0, cell))
+
+def expect(cell, a, b, c):
+    return {'G1': a + b, 'G2': a - b, 'G3': a * b, 'G4': b - a, 'G5': b + a / 100, 'G6': b * -a, 'G7': a + b * c, 'G8': (a + b) * c}[cell]
+"""
+
+
+def group2(report, tier):
+    s = Suite('C01', 'blank', PRE2, timeout=60 if tier == 'quick' else 200)
+    enc = ('ExcelInPython.EmptyCell (int subclass: arithmetic)', 'ExcelInPython._cell_preprocessor', 'ExpressionTokenTranslator.translate', 'CellTranslator._set_cell_to_context')
+    for cell in ['G1', 'G2', 'G3', 'G4', 'G6', 'G7', 'G8']:
+        s.add(f'blank_in_workbook_{cell}', 'b: int, c: int', 'True', f"return ev(KB, '{cell}', B1=b, C1=c) == expect('{cell}', 0, b, c)", encodes=enc, requires='KB is not None')
+        s.add(f'blank_override_{cell}', 'b: int, c: int', 'True', f"return ev(KB, '{cell}', A1=KB.EmptyCell(), B1=b, C1=c) == expect('{cell}', 0, b, c)", encodes=enc, requires='KB is not None')
+    s.add('blank_percent', 'b: int', 'True', "return ev(KB, 'G5', B1=b) == b", encodes=enc, requires='KB is not None')
+    for i in range(6):
+        s.add(f'constant_vs_override_{i}', 'b: int, c: int, f: int', '0 <= f < 7', f"""
+            cell = ['G1', 'G2', 'G3', 'G4', 'G6', 'G7', 'G8'][f]
+            j = ({i} + 1) % len(CONSTS)
+            return ev(KC[{i}], cell, B1=b, C1=c) == ev(KC[j], cell, A1=CONSTS[{i}], B1=b, C1=c)
+        """, encodes=enc, requires=f'{i} in KC and {(i + 1) % 6} in KC')
+    s.run(report)
+    s.report_translate_errors(report)
+
+
+# ---- group 3: numeric literals (E2, IEEE-754 through the real LiteralToken.__init__) ------------------------------------------------------
+def _literal_job(k, e, ibits):
+    """digit groups symbolic: integer part I < 2**ibits, fraction F < 10**k with exactly k digits, exponent e concrete (None = absent)"""
+    import builtins
+    import excel2pycl.src.tokens.regexp_tokens as RT
+    from excel2pycl.src.cell import Cell
+    F64, RNE = z3.Float64(), z3.RNE()
+    REG = {}
+
+    class SymDigits:
+        def __init__(self, k, v):
+            self.k, self.v = k, v
+            self.tag = '\x00D%d\x00' % len(REG)
+            REG[self.tag] = self
+        def __bool__(self): return True
+        def __len__(self): return self.k
+        def __format__(self, spec): return self.tag
+        def __str__(self): return self.tag
+
+    def to_fp(bv):
+        return z3.fpSignedToFP(RNE, bv, F64)
+
+    class SymNum:
+        def __init__(self, t, kind): self.t, self.kind = t, kind
+        def _c(self, o):
+            if isinstance(o, SymNum): return o
+            if isinstance(o, bool): raise TypeError(o)
+            if isinstance(o, int): return SymNum(z3.FPVal(o, F64), 'int')
+            if isinstance(o, float): return SymNum(z3.FPVal(o, F64), 'float')
+            raise TypeError(o)
+        def _k(self, o): return 'int' if self.kind == o.kind == 'int' else 'float'
+        def __add__(self, o): o = self._c(o); return SymNum(z3.fpAdd(RNE, self.t, o.t), self._k(o))
+        __radd__ = __add__
+        def __sub__(self, o): o = self._c(o); return SymNum(z3.fpSub(RNE, self.t, o.t), self._k(o))
+        def __mul__(self, o): o = self._c(o); return SymNum(z3.fpMul(RNE, self.t, o.t), self._k(o))
+        __rmul__ = __mul__
+        def __truediv__(self, o): o = self._c(o); return SymNum(z3.fpDiv(RNE, self.t, o.t), 'float')
+
+    import re as _re
+    TAGRE = _re.compile('\x00D\\d+\x00')
+
+    def part(txt):
+        """digit-group text -> (bit-vector value, number of digits)"""
+        if TAGRE.fullmatch(txt):
+            d = REG[txt]
+            return d.v, d.k
+        return z3.BitVecVal(builtins.int(txt), 64), len(txt)
+
+    def s_int(x, *a):
+        if isinstance(x, SymDigits): return SymNum(to_fp(x.v), 'int')
+        if isinstance(x, str) and '\x00D' in x:
+            v, _ = part(x)
+            return SymNum(to_fp(v), 'int')
+        return builtins.int(x, *a)
+
+    def s_float(x):
+        if isinstance(x, SymDigits):
+            return SymNum(to_fp(x.v), 'float')
+        if isinstance(x, str) and '\x00D' in x:
+            # contract of float() on a decimal text  whole.fraction[e exp] : the correctly rounded (nearest, ties-to-even) double
+            m = _re.fullmatch('(\x00D\\d+\x00|\\d+)\\.(\x00D\\d+\x00|\\d+)(?:e(-?\\d+))?', x)
+            if not m:
+                raise ValueError('float shim cannot parse ' + repr(x))
+            (iv, _), (fv, fk) = part(m.group(1)), part(m.group(2))
+            ex = builtins.int(m.group(3) or 0) - fk
+            num = iv * (10 ** fk) + fv
+            t = z3.fpMul(RNE, to_fp(num), z3.FPVal(10 ** ex, F64)) if ex >= 0 else z3.fpDiv(RNE, to_fp(num), z3.FPVal(10 ** (-ex), F64))
+            return SymNum(t, 'float')
+        return builtins.float(x)
+
+    def s_str(x):
+        if isinstance(x, SymNum):
+            tag = '\x00N%d\x00' % len(REG)
+            REG[tag] = x
+            return tag
+        return builtins.str(x)
+
+    RT.int, RT.float, RT.str = s_int, s_float, s_str         # shadow the builtins through the module globals of the code under test
+    t0 = time.time()
+    I, Fr = z3.BitVec('I', 64), z3.BitVec('Fr', 64)
+    S = z3.Solver()
+    S.set('timeout', 240000)
+    S.add(z3.ULT(I, 2 ** ibits), z3.ULT(Fr, 10 ** k))
+    groups = ['whole', '', SymDigits(6, I), 'x', '.', SymDigits(k, Fr), ('e' if e is not None else ''), (builtins.str(e) if e is not None else ''), '', '', '', '']
+    try:
+        tok = RT.LiteralToken(tuple(groups), Cell(0, 0, 0))
+        got = REG.get(tok.value)
+    except Exception as ex_:
+        return dict(k=k, e=e, verdict='unsupported', detail=f'{type(ex_).__name__}: {ex_}', secs=time.time() - t0)
+    if not isinstance(got, SymNum):
+        return dict(k=k, e=e, verdict='unsupported', detail=f'literal value is {tok.value!r}', secs=time.time() - t0)
+    num = I * (10 ** k) + Fr
+    ee = (e or 0) - k
+    ref = z3.fpMul(RNE, to_fp(num), z3.FPVal(10 ** ee, F64)) if ee >= 0 else z3.fpDiv(RNE, to_fp(num), z3.FPVal(10 ** (-ee), F64))
+    S.add(z3.Not(z3.fpEQ(got.t, ref)))
+    r = S.check()
+    out = dict(k=k, e=e, verdict=str(r), secs=time.time() - t0)
+    if r == z3.sat:
+        m = S.model()
+        i, f = m.eval(I, True).as_long(), m.eval(Fr, True).as_long()
+        out['text'] = f'{i}.{f:0{k}d}' + (f'e{e}' if e is not None else '')
+    return out
+
+
+def group3(report, tier):
+    ks = [1, 2, 3] if tier == 'quick' else [1, 2, 3, 4, 5, 6]
+    es = [None, -1, 1, 2] if tier == 'quick' else [None, -6, -3, -1, 0, 1, 2, 3, 6]
+    ibits = 16 if tier == 'quick' else 20
+    jobs = [(f'literal_k{k}_e{e}', _literal_job, (k, e, ibits)) for k in ks for e in es]
+    res = e2.run_jobs(jobs, NCPU, deadline=600)
+    for name, r in res.items():
+        cname = 'literal.' + name
+        if 'error' in r:
+            report.condition(cname, 'E2', 'inconclusive', detail=r['error'])
+            continue
+        report.queries += 1
+        if r['verdict'] == 'unsat':
+            report.condition(cname, 'E2', 'holds', r['secs'], 1, f'I<2^{ibits}, {r["k"]} fraction digits, exponent {r["e"]}: LiteralToken value == nearest double (fp unsat)')
+            report.sample(dict(job=cname, verdict='unsat', secs=round(r['secs'], 2)))
+        elif r['verdict'] == 'sat':
+            # replay: the real lexer + constructor, no shims, in this (parent) process
+            text = r['text']
+            try:
+                code = translate_one('=' + text)._cell_translations['_0_5_0']
+                got = eval(code)
+            except Exception as ex:
+                got = f'{type(ex).__name__}: {ex}'
+            if got != float(text):
+                report.condition(cname, 'E2', 'violated', r['secs'], 1, f'={text} -> {got!r}, nearest double is {float(text)!r}')
+                report.violation(cname, '=' + text, f'literal evaluates to {got!r}, float({text!r}) = {float(text)!r}')
+            else:
+                report.condition(cname, 'E2', 'spurious', r['secs'], 1, f'model {text} not reproduced')
+        else:
+            report.condition(cname, 'E2', 'inconclusive', r['secs'], 1, f'{r["verdict"]} {r.get("detail", "")}')
+
+
 def run(report, tier, seed):
-    fam = group1(report, tier, seed)
+    group1(report, tier, seed)
+    group2(report, tier)
+    group3(report, tier)
     report.encoded('Lexer.parse', 'AstBuilder.parse', 'CompositeBaseToken.get', 'ExpressionToken/_TOKEN_SETS', 'ExpressionTokenTranslator.translate',
                    'OperandTokenTranslator.translate', 'OperatorSubTokenTranslator.translate', 'LiteralToken.__init__')
     report.bound(f'grouping: all chains of 1 and 2 binary operators (11 operators) x 10 decorations per operand + parenthesised sub-chains, '
-                 f'{"1500 seeded of the" if tier == "quick" else "all"} chains of 3; operands = cell references, one numeric literal decoration')
+                 f'{"8000 seeded of the 51 909" if tier == "quick" else "all"} chains of 3; operands = cell references, one numeric literal decoration; value tier: operands in -9..9')
+    report.bound('blank/override: 9 formulas, operands unbounded ints; 6 workbook constants')
+    report.bound('literals: integer part < 2^16 (quick) / 2^20, 1-3 (quick) / 1-6 fraction digits, exponent in a listed set; digit groups are 64-bit bit-vectors, value Float64')
     report.assume('_normalize_float_number is the identity at term level (documented 15-significant-digit normalisation)',
-                  'a & b is add(tostr a, tostr b) on both sides; text forms of floats/booleans/blank under & are outside the claim (C17)',
+                  'a & b & c: associativity of text concatenation and str(str(x)) = str(x) are built into the term normalisation; text forms of floats/booleans/blank under & are outside the claim (C17)',
+                  'float(decimal text) is modelled by its contract: one correctly rounded (RNE) operation on exactly representable integers (valid while the digits form an integer < 2^53 and the power of ten <= 10^22)',
                   'outside the claim: text operands in arithmetic positions, error-valued operands, chains longer than the bound')
+    report.stub('builtins int/float/str are shadowed in the module globals of regexp_tokens by proxy-aware shims (group 3 only, inside forked workers)')
 
 
 def replay(rp):
